@@ -382,7 +382,18 @@ pub fn prql_to_pl_tree(prql: &SourceTree) -> Result<pr::ModuleDef, ErrorMessages
 // TODO: rename this to `pl_to_rq_simple`
 pub fn pl_to_rq(pl: pr::ModuleDef) -> Result<ir::rq::RelationalQuery, ErrorMessages> {
     semantic::resolve_and_lower(pl, &[], None)
-        .map_err(|e| e.with_source(ErrorSource::NameResolver).into())
+        .map_err(|e| without_std_spans(e.with_source(ErrorSource::NameResolver).into()))
+}
+
+/// A span into the standard library (source id 0) names no source of the caller:
+/// it is dropped here, as it is when [compile] composes its messages.
+fn without_std_spans(mut errors: ErrorMessages) -> ErrorMessages {
+    for e in &mut errors.inner {
+        if e.span.is_some_and(|s| s.source_id == 0) {
+            e.span = None;
+        }
+    }
+    errors
 }
 
 /// Perform semantic analysis and convert PL to RQ.
@@ -392,7 +403,7 @@ pub fn pl_to_rq_tree(
     database_module_path: &[String],
 ) -> Result<ir::rq::RelationalQuery, ErrorMessages> {
     semantic::resolve_and_lower(pl, main_path, Some(database_module_path))
-        .map_err(|e| e.with_source(ErrorSource::NameResolver).into())
+        .map_err(|e| without_std_spans(e.with_source(ErrorSource::NameResolver).into()))
 }
 
 /// Generate SQL from RQ.
